@@ -6,8 +6,11 @@
   (c) the dictionary `self.data` of a shared DOK array.  CPython's rule (Objects/dictobject.c,
       dictiter_iternextitem): a dictionary iterator remembers `ma_used` (the number of live entries)
       at creation; `next()` first compares it with the current `ma_used` and raises
-      RuntimeError("dictionary changed size during iteration") if they differ; otherwise it returns
-      the next LIVE entry at or after its position in the entry array.  `del d[k]` leaves a dead slot
+      RuntimeError("dictionary changed size during iteration") if they differ; otherwise it looks
+      for the next LIVE entry at or after its position in the entry array; it also counts down the
+      number of items it still expects (`len`, initially `ma_used`) and raises
+      RuntimeError("dictionary keys changed during iteration") when it finds an entry although
+      that count is 0 (a deletion plus an insertion behind its back keep the size and are caught so).  `del d[k]` leaves a dead slot
       (positions of the other entries do not move), `d[k] = v` overwrites in place when `k` is
       present and appends otherwise.  (Rebuilding of the entry array on growth is not modelled: the
       harness keeps its dictionaries below the first resize.)
@@ -98,8 +101,9 @@ structure Frame where
 inductive DPc where
   | idle
   | run (f : Frame)                                              -- about to execute the head of `f.rest` (or to return)
-  | iter (f : Frame) (mode : IterMode) (u pos : Nat) (acc : List Nat)  -- about to call `next()`: `ma_used` at creation, position, keys collected
-  | body (f : Frame) (u pos : Nat)                               -- about to run the (private) body of a statement loop
+  /-- about to call `next()`: `ma_used` at creation, position, items still expected, keys collected -/
+  | iter (f : Frame) (mode : IterMode) (u pos rem : Nat) (acc : List Nat)
+  | body (f : Frame) (u pos rem : Nat)                           -- about to run the (private) body of a statement loop
   | dels (f : Frame) (ks : List Nat)                             -- about to delete the head of `ks`
   deriving Repr
 
@@ -128,16 +132,16 @@ def dstep (t : Nat) (s : DState) : DState :=
       match f.rest with
       | [] => s.put t { th with pc := .idle, rets := (f.op, .ok f.seen) :: th.rets }
       | .snapshot :: rest => s.put t { th with pc := .run { f with rest := rest, seen := f.seen ++ items s.dict } }
-      | .iterItems :: rest => s.put t { th with pc := .iter { f with rest := rest } .loop (used s.dict) 0 [] }
-      | .scanItems :: rest => s.put t { th with pc := .iter { f with rest := rest } .comp (used s.dict) 0 [] }
-      | .pruneFill :: rest => s.put t { th with pc := .iter { f with rest := rest } .prune (used s.dict) 0 [] }
+      | .iterItems :: rest => s.put t { th with pc := .iter { f with rest := rest } .loop (used s.dict) 0 (used s.dict) [] }
+      | .scanItems :: rest => s.put t { th with pc := .iter { f with rest := rest } .comp (used s.dict) 0 (used s.dict) [] }
+      | .pruneFill :: rest => s.put t { th with pc := .iter { f with rest := rest } .prune (used s.dict) 0 (used s.dict) [] }
       | .setItem k v :: rest =>
         { dict := setKey s.dict k v, threads := s.threads.set t { th with pc := .run { f with rest := rest } } }
       | .delItem k :: rest =>
         match delKey s.dict k with
         | none => s.raise t th f .index
         | some d => { dict := d, threads := s.threads.set t { th with pc := .run { f with rest := rest } } }
-    | .iter f mode u pos acc =>
+    | .iter f mode u pos rem acc =>
       if used s.dict ≠ u then
         s.raise t th f .runtime   -- RuntimeError: dictionary changed size during iteration
       else
@@ -147,11 +151,14 @@ def dstep (t : Nat) (s : DState) : DState :=
            | .prune => s.put t { th with pc := .dels f acc }
            | _ => s.put t { th with pc := .run f })
         | some (it, pos') =>
-          (match mode with
-           | .loop => s.put t { th with pc := .body { f with seen := f.seen ++ [it] } u pos' }
-           | .comp => s.put t { th with pc := .iter { f with seen := f.seen ++ [it] } .comp u pos' acc }
-           | .prune => s.put t { th with pc := .iter f .prune u pos' (if it.2 = 0 then acc ++ [it.1] else acc) })
-    | .body f u pos => s.put t { th with pc := .iter f .loop u pos [] }
+          if rem = 0 then
+            s.raise t th f .runtime   -- RuntimeError: dictionary keys changed during iteration
+          else
+            (match mode with
+             | .loop => s.put t { th with pc := .body { f with seen := f.seen ++ [it] } u pos' (rem - 1) }
+             | .comp => s.put t { th with pc := .iter { f with seen := f.seen ++ [it] } .comp u pos' (rem - 1) acc }
+             | .prune => s.put t { th with pc := .iter f .prune u pos' (rem - 1) (if it.2 = 0 then acc ++ [it.1] else acc) })
+    | .body f u pos rem => s.put t { th with pc := .iter f .loop u pos rem [] }
     | .dels f ks =>
       match ks with
       | [] => s.put t { th with pc := .run f }
@@ -188,9 +195,9 @@ def dabsorbedAt (s : DState) (t : Nat) : Bool :=
   match s.threads[t]? with
   | some th =>
     (match th.pc with
-     | .iter _ .loop _ 0 _ => true
-     | .iter _ .comp _ _ _ => true
-     | .iter _ .prune _ _ _ => true
+     | .iter _ .loop _ 0 _ _ => true
+     | .iter _ .comp _ _ _ _ => true
+     | .iter _ .prune _ _ _ _ => true
      | .dels _ [] => true
      | .run f => f.rest.isEmpty
      | .idle => !th.todo.isEmpty
@@ -221,7 +228,7 @@ def dpcKind (s : DState) (t : Nat) : String :=
     (match th.pc with
      | .idle => if th.todo.isEmpty then "done" else "idle"
      | .run _ => "stmt"
-     | .iter _ .loop _ _ _ => "for"
+     | .iter _ .loop _ _ _ _ => "for"
      | .iter .. => "scan"
      | .body .. => "body"
      | .dels .. => "del")
